@@ -111,11 +111,25 @@ fn run_cells_prop(o: &Opts, rep: &mut Report) {
         _ => vec![(
             "cells-boundary",
             pool::boundary_pool(full),
-            "every unary operator, index, if × boundary pool; every binary operator × all ordered pairs of the boundary pool (type extremes, mutation-killing values)",
+            "every unary operator, index, if × boundary pool; every binary operator × all ordered pairs of the boundary pool (type extremes, mutation-killing values); for C02 also uppercase / lowercase / trim over a string probe pool (context-sensitive and multi-character case mappings incl. final sigma, every White_Space character at either end and inside, look-alikes) and `contains` between its members",
         )],
     };
     for (name, p, rule) in pools {
-        let cs = cells::cells_over(&p);
+        let mut cs = cells::cells_over(&p);
+        if name == "cells-boundary" && o.prop == "C02" {
+            // the string built-ins over the string probe pool (unary), and `contains` / `==` between its members
+            let sp = pool::string_probe_pool();
+            for op in ["upper", "lower", "trim"] {
+                for a in &sp {
+                    cs.push(cells::Cell { op: op.into(), class: "un", a: a.clone(), b: None, expr: codec::mk_un(op, reval::expr::Expr::Value(a.clone())) });
+                }
+            }
+            for a in sp.iter().take(60) {
+                for b in sp.iter().take(60) {
+                    cs.push(cells::Cell { op: "contains".into(), class: "bin", a: a.clone(), b: Some(b.clone()), expr: codec::mk_bin("contains", reval::expr::Expr::Value(a.clone()), reval::expr::Expr::Value(b.clone())) });
+                }
+            }
+        }
         let outs = cells::run_cells(&cs, &o.driver, o.workers);
         let mut sr = StreamReport::new(name, &format!("{rule}; pool size {}; non-trivial = the operator itself decides the result (all cells), distinct by canonical encoding", p.len()), true);
         for (c, out) in cs.iter().zip(outs.iter()) {
